@@ -35,9 +35,10 @@ def arc_from_theta(edge_point_1: PointType, edge_point_2: PointType, angle: floa
     chord = dp - length * axis
     mag_chord = f.norm(chord)
 
-    center = pm - length * axis / 2 - rm * mag_chord / 2 / np.tan(angle / 2)
-
-    return f.arc_mid(axis, center, edge_point_1, edge_point_2)
+    # the point of the arc at half the sector angle lies on the bisector of the chord, offset from the
+    # middle of the chord by the sagitta mag_chord/2*tan(angle/4); this also holds for |angle| > pi, where
+    # projecting the middle of the chord from the centre (f.arc_mid) would give the complementary arc
+    return pm + rm * mag_chord / 2 * np.tan(angle / 4)
 
 
 @dataclasses.dataclass
